@@ -88,6 +88,50 @@ fn run_inner(sc: &J) -> Result<Option<String>, String> {
                 Err(_) => Ok(None),
             }
         }
+        // C18: a sequence of messages through ONE GenericSingleObjectWriter; message i goes to a sink that fails at
+        // call index fail_at[i] (null = healthy). Every message that returns Ok must be header ++ datum and decode back.
+        "single_object_sequence" => {
+            let schema = Schema::parse_str(sc["schema"].as_str().ok_or("schema")?).map_err(|e| e.to_string())?;
+            let mut w = apache_avro::GenericSingleObjectWriter::new_with_capacity(&schema, 64).map_err(|e| e.to_string())?;
+            let rd = apache_avro::GenericSingleObjectReader::builder().schema(schema.clone()).build().map_err(|e| e.to_string())?;
+            let msgs = sc["datums"].as_array().ok_or("datums")?;
+            for (i, m) in msgs.iter().enumerate() {
+                let bytes = crate::hex(m.as_str().unwrap_or(""));
+                let value = apache_avro::from_avro_datum(&schema, &mut &bytes[..], None).map_err(|e| e.to_string())?;
+                let fail_at = sc["fail_at"].get(i).and_then(|x| x.as_u64()).map(|x| x as usize);
+                let mut sink = FaultySink { data: Vec::new(), accept: usize::MAX, fail_at, calls: 0 };
+                match w.write_value_ref(&value, &mut sink) {
+                    Ok(n) => {
+                        if sink.data.len() != 10 + bytes.len() || sink.data[10..] != bytes[..] || sink.data[..2] != [0xC3, 0x01] || n != sink.data.len() {
+                            return Ok(Some(format!("message {i}: Ok({n}) but sink holds {:02x?}; expected C3 01 <fp8> {:02x?}", sink.data, bytes)));
+                        }
+                        match rd.read_value(&mut &sink.data[..]) { Ok(v) if v == value => {}, other => return Ok(Some(format!("message {i} does not read back: {other:?}"))) }
+                    }
+                    Err(e) => { if fail_at.is_none() { return Ok(Some(format!("message {i}: healthy sink but write failed: {e}"))); } }
+                }
+            }
+            Ok(None)
+        }
+        // C13: documented "returns the number of bytes written" (SpecificSingleObjectWriter::write_value, String payload)
+        "specific_single_object_count" => {
+            let text = sc["text"].as_str().unwrap_or("").to_string();
+            let w = apache_avro::SpecificSingleObjectWriter::<String>::new().map_err(|e| e.to_string())?;
+            let mut out = Vec::new();
+            let n = w.write_value(text.clone(), &mut out).map_err(|e| e.to_string())?;
+            if n != out.len() { return Ok(Some(format!("write_value returned {n} but {} bytes were written", out.len()))); }
+            Ok(None)
+        }
+        // C13: encode's returned count equals bytes appended (datum given as hex under schema)
+        "encode_count" => {
+            let schema = Schema::parse_str(sc["schema"].as_str().ok_or("schema")?).map_err(|e| e.to_string())?;
+            let bytes = jhex(sc, "datum");
+            let value = apache_avro::from_avro_datum(&schema, &mut &bytes[..], None).map_err(|e| e.to_string())?;
+            let w = apache_avro::writer::datum::GenericDatumWriter::builder(&schema).build().map_err(|e| e.to_string())?;
+            let mut out = Vec::new();
+            let n = w.write_value_ref(&mut out, &value).map_err(|e| e.to_string())?;
+            if n != out.len() || out != bytes { return Ok(Some(format!("write_value_ref returned {n}, wrote {} bytes {:02x?}", out.len(), out))); }
+            Ok(None)
+        }
         k => Err(format!("unknown scenario kind {k:?}")),
     }
 }
